@@ -54,6 +54,9 @@ def make_ev_resolver(tn, fd, wrap=None):
     from py_gql.exc import ResolverError
 
     def resolver(root, ctx, info, **args):
+        boom = getattr(ctx, "boom", None)
+        if boom and (ctx.ev_of(root), tuple(info.path)) in boom:
+            raise RX.Boom((ctx.ev_of(root), tuple(info.path)))   # an unexpected exception aborts this event only
         b = ctx.behaviour_ev(tn, fd, list(info.path), args, root)
         if b[0] == "error":
             raise ResolverError(b[1], extensions=b[2])
@@ -128,7 +131,16 @@ def run_subscription(schema, text, variables, world, schedule, runtime_kind="asy
                                operation_name=operation_name)
             if asyncio.iscoroutine(stream) or isinstance(stream, asyncio.Future):
                 stream = await stream
-            async for r in stream:
+            it = stream.__aiter__()
+            while True:
+                try:
+                    r = await it.__anext__()
+                except StopAsyncIteration:
+                    break
+                except RX.Boom as e:
+                    # the consumer notes the failed event and keeps listening
+                    out["results"].append(e)
+                    continue
                 out["results"].append(r)
 
         task = asyncio.ensure_future(consume())
@@ -191,6 +203,22 @@ def check_case(case, ctx=None):
             return None
     world = EvWorld(eff, wj["salt"], wj["p_err"], wj["p_null"], wj["p_null_item"])
     world.events = list(events)
+    world.boom = set()
+    boom_events = {}
+    if refusal is None and case.get("boom") and events:
+        # an unexpected exception at a field of one event, preferably after other fields of that event were resolved
+        for evi, ci in case["boom"]:
+            ev = events[evi % len(events)]
+            w = EvWorld(eff, wj["salt"], wj["p_err"], wj["p_null"], wj["p_null_item"])
+            try:
+                r0 = RX.execute(eff, text, req["variables"], w, None, root_value=ev,
+                                resolve_leaf_parent=lambda tn, fd, path, args, parent, w=w: w.behaviour_ev(tn, fd, path, args, parent))
+            except (RX.RequestError, RX.Unspecified):
+                return None
+            if r0.calls:
+                path = tuple(r0.calls[-1 - (ci % len(r0.calls)) if ci % 3 else -1][0])
+                world.boom.add((ev["__ev__"], path))
+                boom_events[ev["__ev__"]] = path
     out = run_subscription(schema, text, {} if refusal in ("several-fields", "query-operation") else req["variables"], world,
                            case["schedule"], runtime_kind)
     if refusal is not None:
@@ -222,6 +250,13 @@ def check_case(case, ctx=None):
         except (RX.RequestError, RX.Unspecified):
             return None
     for k, (res, ref) in enumerate(zip(out["results"], refs)):
+        if k in boom_events:
+            if not isinstance(res, RX.Boom):
+                vios.append(("C17/unexpected-exception-lost", "event %d: result=%r" % (k, getattr(res, "data", res))))
+            continue
+        if isinstance(res, RX.Boom):
+            vios.append(("C17/unexpected-exception-in-other-event", "event %d raised %r" % (k, res)))
+            continue
         v = H.compare(ref, res, "C17/event")
         if v:
             # does it match another event's result? (ordering / isolation explanation)
@@ -238,6 +273,8 @@ def check_case(case, ctx=None):
         ctx.event("subscription-resolver:" + case["sub_kind"])
         if any(errs):
             ctx.event("stream-with-error-event")
+        if boom_events:
+            ctx.event("stream-with-an-event-aborted-by-an-unexpected-exception")
         ctx.case(key=(text, req["variables"], wj, case["n_events"], out["choices"], case["sub_kind"]), nontrivial=nt,
                  sample={"sdl": GS.to_sdl(eff, False), "request": text, "variables": req["variables"], "events": len(events),
                          "errors_per_event": [len(r.errors) for r in refs], "choices": out["choices"], "resolver": case["sub_kind"]})
@@ -253,6 +290,7 @@ def cases(draw):
     return {"spec": spec, "request": req, "refusal": refusal,
             "world": {"salt": draw(st.integers(0, 10 ** 6)), "p_err": draw(st.sampled_from([0, 3, 5, 9])),
                       "p_null": draw(st.sampled_from([0, 5, 9])), "p_null_item": draw(st.sampled_from([0, 4]))},
+            "boom": [(draw(st.integers(0, 7)), draw(st.integers(0, 9)))] if draw(st.integers(0, 3)) == 0 else [],
             "n_events": draw(st.integers(0, 8)), "sub_kind": draw(st.sampled_from(["plain", "coro"])),
             "schedule": draw(st.lists(st.integers(0, 5), max_size=30))}
 
